@@ -30,7 +30,7 @@ ok, out = ck.coq_make(["Gen/C09_Matcher.vo", "Gen/C08_Tables.vo", "Model/C08_Che
 if not ok:
     ck.violation("coq-model-broken", "Coq model of C08 does not compile", {"log": out[-3000:]}, no_input=True)
     stop("model did not compile")
-ok, out = ck.coq_make(["Proofs/C08.vo", "Proofs/C08_Symbols.vo", "Examples/C08.vo"])
+ok, out = ck.coq_make(["Proofs/C08.vo", "Proofs/C08_Symbols.vo", "Proofs/C08_RootCalls.vo", "Examples/C08.vo"])
 if not ok:
     broken.append(("coq-make Proofs/C08 Examples/C08", out[-3000:]))
 ok, out = ck.coq_props()
@@ -45,9 +45,9 @@ if exe is None:
     stop("harness build failed")
 work = ck.mkscratch()
 res = os.path.join(work, "out.json")
-real = "./pattern,./analysis/code,./lintcmd/cache"
+real = "./analysis/code"
 if ck.thorough():
-    real += ",./lintcmd,./lintcmd/runner,./go/ir,./unused,./simple/s1008,./staticcheck/sa1006,./config,./analysis/report"
+    real += ",./pattern,./lintcmd/cache,./lintcmd,./lintcmd/runner,./go/ir,./unused,./simple/s1008,./staticcheck/sa1006,./config,./analysis/report"
 rc, out = sh([exe, "-repo", REPO, "-work", work, "-out", res, "-seed", str(ck.seed), "-real", real], timeout=3000)
 if rc != 0:
     ck.violation("harness-run", "harness run failed: " + out[-500:], {"log": out[-3000:]}, no_input=True)
